@@ -54,11 +54,16 @@ def fresh_name(rng: random.Random, used: set[str], prefix: str = "") -> str:
 
 
 LITERALS = [(0, 0), (1, 0), (2, 0), (3, 0), (7, 0), (10, 0), (5, -1), (25, -2), (15, -1), (275, -2),
-            (1, -3), (25, 1), (1, 3), (314159, -5), (6022, 20), (1, -12), (123456789012345678, -17),
+            (1, -3), (25, 1), (1, 3), (314159, -5), (6022, 12), (1, -12), (123456789012345678, -17),
             (9, -1), (4, 0), (12, -1), (1, -1)]
 
 
-def lit(rng: random.Random):
+EXTREME = [(6022, 20), (1, 300), (1, -300), (7, 25), (581, 21)]
+
+
+def lit(rng: random.Random, extreme: bool = False):
+    if extreme and rng.random() < 0.15:
+        return ("num",) + sexp.norm_num(*rng.choice(EXTREME))
     if rng.random() < 0.7:
         m, e = rng.choice(LITERALS)
     else:
@@ -81,6 +86,7 @@ class ExprCfg:
     allow_time: bool = True
     safe: float = 0.75        # chance of a domain-safe wrapper for partial functions
     p_idiom: float = 0.12     # precedence-sensitive / interval idioms of real models
+    extreme: bool = False     # literals of astronomical size (kept to a stream of their own)
     funcs: tuple = ("exp", "log", "sqrt", "sin", "cos", "tan", "asin", "acos", "atan", "abs")
 
 
@@ -125,7 +131,15 @@ def idiom_expr(rng, avail, cfg):
         return ("var", rng.choice(avail)) if avail else lit(rng)
     a, x, y = var(), var(), var()
     n = ("num", rng.choice([2, 3]), 0)
-    k = rng.randrange(12)
+    k = rng.randrange(14)
+    if k >= 12:
+        # phase shifts: a trigonometric function of a sum that contains pi (in either grouping)
+        f = rng.choice(["sin", "cos", "tan"])
+        shift = rng.choice([("pi",), ("mul", ("num", 2, 0), ("pi",)), ("div", ("pi",), ("num", 2, 0)), ("neg", ("pi",))])
+        c = small_lit(rng) if rng.random() < 0.6 else y
+        arg = rng.choice([("add", ("add", x, shift), c), ("add", x, ("add", shift, c)), ("sub", x, ("sub", shift, c)),
+                          ("add", ("mul", ("mul", ("num", 2, 0), ("pi",)), x), ("add", shift, c)), ("sub", ("add", c, shift), x)])
+        return ("mul", a, ("fn", f, arg)) if f != "tan" else ("fn", "sin", arg)
     if k == 0:
         return ("div", a, ("pow", x, n))                                  # a/x**2
     if k == 1:
@@ -179,7 +193,7 @@ def gen_expr(rng: random.Random, avail: list[str], depth: int, cfg: ExprCfg | No
             return ("pi",)
         if cfg.allow_time and k < 0.70:
             return ("var", rng.choice(["t", "time"]))
-        return lit(rng)
+        return lit(rng, getattr(cfg, "extreme", False))
     if rng.random() < cfg.p_idiom:
         return idiom_expr(rng, avail, cfg)
     k = rng.random()
@@ -408,7 +422,8 @@ def gen_model(rng: random.Random, cfg: ModelCfg | None = None) -> GModel:
         else:
             n = name("s")
         m.states[n] = (gen_value(rng, cfg), rng.choice(comps))
-    for k in range(rng.randint(1, cfg.max_params)):
+    # now and then a model without parameters (templates have to cope with empty lists)
+    for k in range(rng.randint(0 if rng.random() < 0.12 else 1, cfg.max_params)):
         if rng.random() < cfg.p_prefix_names / 2:
             n = related(rng.choice(list(m.states) + list(m.params)))
         else:
